@@ -24,11 +24,17 @@ const prop = "C30"
 
 // Classes of GENUINE, already triaged defects of gossamer that fire so often
 // that stopping at them would prevent exploring anything else. For these (and
-// only these) classes the oracle records the finding, resynchronises and goes
-// on; the finding is still raised as a violation at the end of the run in the
-// first `reportBelow` run indexes of a batch (so that every batch reports it
-// once and known_findings.json can match it) and in every run when
-// VERIF_C30_STRICT=1. Remove an entry once the defect is fixed in /repo.
+// only these) classes the oracle counts the finding (probe "tolerated:<class>"),
+// resynchronises and goes on. How they are still reported:
+//   - the class is raised through k.Violate once per worker process and only in run
+//     indexes below reportBelow, so that every batch reports it once (as a VIOLATION
+//     with a minimised replay, or as KNOWN-FINDING when known_findings.json lists
+//     it, with or without "continue") without drowning in it; the true number of
+//     occurrences is the probe counter;
+//   - VERIF_C30_STRICT=1 and replays of such a finding always stop at it.
+//
+// Remove an entry once the defect is fixed in /repo: the class is then an ordinary
+// violation again.
 var tolerated = map[string]bool{
 	"report-unknown-peer-deadlock": true,
 	"multi-report-not-applied":     true,
@@ -55,6 +61,9 @@ var proc struct {
 // runTarget decides, at the start of a run, how tolerated classes are treated:
 // fresh run (may raise a not yet reported class) or re-execution (raises only target).
 func runTarget(ix uint64) (target string, fresh bool) {
+	if proc.reported == nil {
+		proc.reported = map[string]bool{}
+	}
 	if os.Getenv("VERIF_MODE") == "replay" {
 		if b, err := os.ReadFile(os.Getenv("VERIF_REPLAY")); err == nil {
 			var rf struct {
@@ -65,9 +74,6 @@ func runTarget(ix uint64) (target string, fresh bool) {
 			}
 		}
 		return "", false
-	}
-	if proc.reported == nil {
-		proc.reported = map[string]bool{}
 	}
 	if proc.started && proc.curIx == ix {
 		return proc.curClass, false
@@ -193,6 +199,7 @@ type env struct {
 	verbose      bool
 	target       string
 	fresh        bool
+	replay       bool
 	lastErr      error
 }
 
@@ -286,21 +293,36 @@ func (e *env) msgLine(msgs []gps.Message) string {
 	return "[" + strings.Join(parts, " ") + "]"
 }
 
-// report raises a violation, or - for the narrowly identified tolerated
-// classes - counts it and lets the run continue (see reportBelow).
-func (e *env) report(oracle, class, format string, a ...any) {
-	if e.strict || !tolerated[class] {
-		e.k.Violate(prop, oracle, class, format, a...)
-		return
-	}
-	if !e.fresh {
-		if class == e.target {
-			e.k.Violate(prop, oracle, class, format, a...)
+// raise hands a finding to the kernel. k.Violate stops the run unless the finding is
+// a known one marked "continue"; with force the run stops even then (strict mode,
+// replay of exactly this finding).
+func (e *env) raise(oracle, class, msg string, force bool) {
+	if e.k.Violate(prop, oracle, class, "%s", msg) {
+		if force {
+			e.k.Viol = &kernel.Violation{Prop: prop, Oracle: oracle, Class: class, Msg: msg}
+			e.k.Stop()
 		}
-	} else if e.k.RunIx < reportBelow && !proc.reported[class] {
+	}
+}
+
+// report raises a violation, or - for the narrowly identified tolerated
+// classes - counts it and lets the run continue (see the comment on tolerated).
+func (e *env) report(oracle, class, format string, a ...any) {
+	msg := fmt.Sprintf(format, a...)
+	switch {
+	case e.strict:
+		e.raise(oracle, class, msg, true)
+	case !tolerated[class]:
+		e.raise(oracle, class, msg, false)
+	case !e.fresh:
+		// re-execution of a run index (tape minimisation) or replay: raise what was raised first
+		if class == e.target {
+			e.raise(oracle, class, msg, e.replay)
+		}
+	case e.k.RunIx < reportBelow && !proc.reported[class]:
 		proc.reported[class] = true
 		proc.curClass = class
-		e.k.Violate(prop, oracle, class, format, a...)
+		e.raise(oracle, class, msg, false)
 	}
 	e.k.Probe("tolerated:" + class)
 }
@@ -476,6 +498,7 @@ func (e *env) check(eff effect, msgs []gps.Message, a snap) {
 		i := e.index(m.PeerID)
 		if i < 0 {
 			k.Violate(prop, "msg-state", "message-for-unknown-peer@"+kind, "message %s for a peer outside the population; %s", statusName(m.Status), e.ctx(eff, msgs, a))
+			continue
 		}
 		k.Probe("msg-" + statusName(m.Status))
 		switch m.Status {
@@ -554,6 +577,7 @@ func runPeerset(k *kernel.K) {
 	e.reservedOnly = k.Bool(1, 4, "reserved-only")
 	e.strict = os.Getenv("VERIF_C30_STRICT") == "1"
 	e.target, e.fresh = runTarget(k.RunIx)
+	e.replay = os.Getenv("VERIF_MODE") == "replay"
 	e.verbose = os.Getenv("VERIF_MODE") == "replay" || os.Getenv("VERIF_C30_VERBOSE") == "1"
 	handlerMode := false
 	period := 2 * time.Second
